@@ -38,7 +38,9 @@ template <class X> struct Esc {
     void escape_checks(Ctx& c, const Str& s) {
         typename X::S w = widen<X>(s);
         for (int flags = 0; flags < 4; flags++) {
-            bool plus = flags & 1, nb = flags & 2;
+            int plus = flags & 1, nb = (flags & 2) ? 1 : 0;
+            // any non-zero UriBool means "yes"
+            if ((c.case_index % 7) == 3) { if (plus) plus = (c.case_index & 8) ? -1 : 2; if (nb) nb = (c.case_index & 16) ? 0x100 : 2; }
             for (int ex = 0; ex < 2; ex++) {
                 // input: explicit range without terminator (Ex) or NUL-terminated
                 typename X::S in = w; if (!ex) in.push_back(0);
@@ -51,7 +53,7 @@ template <class X> struct Esc {
                 c.stage((uint64_t)flags * 2 + (uint64_t)ex + 1);
                 { LibScope ls; ret = ex ? X::EscapeEx(first, first + w.size(), out, plus, nb) : X::Escape(first, out, plus, nb); }
                 c.evaluations++;
-                Str what = fmt("%s(\"%s\", spaceToPlus=%d, normalizeBreaks=%d)", ex ? "uriEscapeEx" : "uriEscape", esc(s).c_str(), (int)plus, (int)nb);
+                Str what = fmt("%s(\"%s\", spaceToPlus=%d, normalizeBreaks=%d)", ex ? "uriEscapeEx" : "uriEscape", esc(s).c_str(), plus, nb);
                 long where;
                 if (!ob.canaries_ok(&where)) c.violation("C16", fmt("escape/%s/write-outside-documented-bound", X::tag()), what + fmt(" offset %ld", where));
                 if (!gin.unchanged()) c.violation("C16", fmt("escape/%s/input-modified", X::tag()), what);
@@ -94,9 +96,10 @@ template <class X> struct Esc {
             Char* buf = (Char*)gio.ptr;
             const Char* end;
             c.stage(100 + (uint64_t)plus * 8 + (uint64_t)br * 2 + (uint64_t)variant);
-            { LibScope ls; end = variant ? X::UnescapeInPlace(buf) : X::UnescapeInPlaceEx(buf, plus, (UriBreakConversion)br); }
+            int plusArg = (plus && (c.case_index % 5) == 2) ? ((c.case_index & 4) ? -1 : 2) : plus;      // any non-zero UriBool means "yes"
+            { LibScope ls; end = variant ? X::UnescapeInPlace(buf) : X::UnescapeInPlaceEx(buf, plusArg, (UriBreakConversion)br); }
             c.evaluations++;
-            Str what = fmt("%s(\"%s\", plusToSpace=%d, breakConversion=%d)", variant ? "uriUnescapeInPlace" : "uriUnescapeInPlaceEx", esc(s).c_str(), plus, br);
+            Str what = fmt("%s(\"%s\", plusToSpace=%d, breakConversion=%d)", variant ? "uriUnescapeInPlace" : "uriUnescapeInPlaceEx", esc(s).c_str(), plusArg, br);
             if (!end || end < buf || end > buf + s.size()) { c.violation("C16", fmt("unescape/%s/returned-pointer-outside-or-longer", X::tag()), what); continue; }
             if (*end != 0) c.violation("C16", fmt("unescape/%s/not-terminated-at-returned-pointer", X::tag()), what);
             if (buf[s.size()] != 0) c.violation("C16", fmt("unescape/%s/original-terminator-overwritten", X::tag()), what);
